@@ -39,6 +39,11 @@ type ChainSpec struct {
 	EmptyDataHash []byte
 	// Payload is the chain's signature payload provider (nil: the raw header bytes).
 	Payload types.SignaturePayloadProvider
+	// DataLink (chains of a producing node): the data record of block h names the hash of the data record
+	// of block h-1 (types.Data.Verify, which peers apply when they sync data over P2P).
+	DataLink bool
+	// NextRoot is the reference model of the execution layer (nil: the hash fold of ExecDbl).
+	NextRoot func(prev []byte, txs [][]byte) []byte
 }
 
 // Problem is a failed oracle clause.
@@ -68,7 +73,7 @@ func CheckChain(ctx context.Context, sp ChainSpec) ([]BlockView, *Problem) {
 		return views, nil
 	}
 	root := append([]byte(nil), sp.GenesisRoot...)
-	var prevHash []byte
+	var prevHash, prevDataHash []byte
 	var prevTime uint64 = uint64(sp.Genesis.GenesisDAStartTime.UnixNano())
 	state := types.State{
 		ChainID:         sp.Genesis.ChainID,
@@ -114,6 +119,18 @@ func CheckChain(ctx context.Context, sp ChainSpec) ([]BlockView, *Problem) {
 		if !bytes.Equal(hdr.DataHash, want) {
 			return views, prob("chain/datahash", "block %d data hash %x is not the commitment %x of its %d txs", h, hdr.DataHash, want, len(txs))
 		}
+		if sp.DataLink {
+			if data.Metadata == nil {
+				return views, prob("chain/data-metadata", "block %d is stored without data metadata", h)
+			}
+			if data.Metadata.Height != h || data.Metadata.ChainID != sp.Genesis.ChainID || data.Metadata.Time != hdr.BaseHeader.Time {
+				return views, prob("chain/data-metadata", "block %d data metadata (chain %q height %d time %d) does not match its header", h, data.Metadata.ChainID, data.Metadata.Height, data.Metadata.Time)
+			}
+			if h > initial && !bytes.Equal(data.Metadata.LastDataHash, prevDataHash) {
+				return views, prob("chain/data-link", "block %d data names previous data hash %x, the data of block %d hashes to %x", h, data.Metadata.LastDataHash, h-1, prevDataHash)
+			}
+		}
+		prevDataHash = data.Hash()
 		if !bytes.Equal(hdr.AppHash, root) {
 			return views, prob("chain/apphash", "block %d carries app hash %x, executing all earlier blocks gives %x", h, hdr.AppHash, root)
 		}
@@ -144,7 +161,11 @@ func CheckChain(ctx context.Context, sp ChainSpec) ([]BlockView, *Problem) {
 				return views, prob("chain/validate", "block %d fails full-node validation: %v", h, err)
 			}
 		}
-		after := NextRoot(root, txs)
+		next := sp.NextRoot
+		if next == nil {
+			next = NextRoot
+		}
+		after := next(root, txs)
 		views = append(views, BlockView{Height: h, HeaderHash: hdr.Hash(), DataHash: hdr.DataHash, Txs: txs, Time: hdr.BaseHeader.Time, AppHash: root, RootAfter: after})
 		state.LastBlockHeight = h
 		state.LastBlockTime = hdr.Time()
